@@ -1,7 +1,7 @@
 """C06: exhaustive predicates over the bound tables (A7), clamp shapes, monotonicity-in-delta typing of the small-sample
 binomial branches, HLL / CPC bound formula shapes."""
 import math
-from astu import strip, strip_all, walk, walkp, txt, short, is_this_field, field_name, stmts_of, always_throws, functions_by, local_decls
+from astu import C, ctxt, gt_pair, eq_const, strip, strip_all, walk, walkp, txt, short, is_this_field, field_name, stmts_of, always_throws, functions_by, local_decls
 from vlib.core import ob
 
 
@@ -177,10 +177,10 @@ def binomial_rules(facts):
             t = txt(r[0]["e"], None).replace(" ", "") if r else "?"
             key = "binomial_bounds::%s:clamp" % fn["name"]
             if fn["name"] == "get_lower_bound":
-                ok = t.startswith("min(estimate,max(") and t.endswith(",lb))")
+                ok = t in (C("min(estimate,max(num_samples,lb))"),)
                 msg = "returns min(estimate, max(num_samples, lb)): never above the estimate, never below the retained count"
             else:
-                ok = t == "max(estimate,ub)"
+                ok = t == C("max(estimate,ub)")
                 msg = "returns max(estimate, ub): never below the estimate"
             # the clamp arguments must be the computed estimate / bound
             st = [txt(s.get("e")) for s in stmts_of(fn["body"]) if s.get("k") == "Expr"]
@@ -294,7 +294,7 @@ def hll_cpc_bound_shapes(facts):
             if not any(("%s_SIDE_DATA[((3*(lg_k-4))+(kappa-1))]" % tbl) in a.replace(" ", "") for a in assigns):
                 probs.append("x is not read from the %s-side table at 3*(lg_k-4)+(kappa-1) (%s)" % (tbl, assigns))
             guards = [txt(s["c"]).replace(" ", "") for s in stmts_of(fn["body"]) if s.get("k") == "If" and always_throws(s.get("t"))]
-            if not any("kappa<1" in g and "kappa>3" in g for g in guards):
+            if not any(g == C("((kappa<1)||(kappa>3))") for g in guards):
                 probs.append("kappa is not validated to 1..3 before indexing")
             if probs:
                 out.append(ob("bounds.shape", key, fn["pat"], "violated", "; ".join(probs), fn["qname"]))
